@@ -52,9 +52,12 @@ def crash_key(r):
 def run(ctx):
     tools = vcheck.build_harness(["nagadrive", "goextract"])
     ok, failed, log = vcheck.proof_step(
-        ctx, "Props/C10.v", ["Lex/LexModel.v", "Lex/LexInst.v", "Lex/LexProofs.v", "Lex/LexFinal.v"],
+        ctx, "Props/C10.v", ["Lex/LexModel.v", "Lex/LexInst.v", "Lex/LexProofs.v", "Lex/LexFinal.v",
+                             "Parse/Ast.v", "Parse/TkFacts.v", "Parse/ParserModel.v", "Parse/ParserProofs.v"],
         gen_writer=lambda: gen.regenerate(tools, ["lex"]), extra_obligation_files=["Lex/LexInst.v"])
     ctx.cov["trusted_base"] += [
+        "parser theorems (c10_parse_*) are about coq/Parse/ParserModel.v, a transliteration of parser.go whose agreement with the "
+        "implementation is checked by the parser correspondence leg of checks/c19.py (lib/parsecorr.py) on every C19 run",
         "translator: harness/cmd/goextract + gen.py -> coq/Gen/LexTables.v",
         "extraction: ExtrOcamlBasic only; OCaml 4.13.1; ocaml/lex/driver.ml",
         "worker harness: harness/cmd/nagadrive under RLIMIT_AS and a wall-clock limit (lib/nagarun.py)",
@@ -117,6 +120,8 @@ def run(ctx):
         inputs.append(("builtin_arity", b))
     for b in W.void_call_inputs():
         inputs.append(("void_call", b))
+    for b in W.single_token_edits_systematic(full=ctx.thorough):
+        inputs.append(("tokedit_sys", b))
     hist = {}
     for t, _ in inputs:
         k = t.split(":")[0]
